@@ -1,6 +1,19 @@
 // C02 — engine E1 (see e1 / e1cases).
 package main
 
-import "verifmc/e1cases"
+import (
+	"verifmc/drv"
+	"verifmc/e1cases"
+)
 
-func main() { e1cases.Main("C02") }
+var optDomains []*drv.Domain
+
+func main() {
+	if len(optDomains) == 0 {
+		optDomains = append(optDomains, &drv.Domain{Name: "optional-domains-skipped", Size: 1, Run: func(c *drv.Ctx, lo, hi int64) {
+			c.Cap("the hand-built key hook does not fit this tree: index-bookkeeping-tall skipped")
+			c.Outcome("skipped")
+		}})
+	}
+	e1cases.MainWith("C02", optDomains)
+}
